@@ -753,3 +753,52 @@ Proof. vm_compute; reflexivity. Qed.
 
 Lemma ex_div_zero : numeric_do OpDiv (NInt 7) (NInt 0) = Err.
 Proof. vm_compute; reflexivity. Qed.
+
+(* ---- modulo ---- *)
+Lemma mod_zero_is_error : forall a z, (z = NInt 0 \/ z = NUint 0 \/ z = NChar 0) -> mod_do a z = Err.
+Proof.
+  intros a z [H|[H|H]]; subst z; destruct a; reflexivity.
+Qed.
+
+Lemma mod_int_spec : forall x y, y <> 0 ->
+  mod_do (NInt x) (NInt y) = Ok (NInt (x - y * Z.quot x y)).
+Proof.
+  intros x y Hy. unfold mod_do, imod.
+  destruct (Z.eqb_spec y 0) as [E|_]; [contradiction|].
+  f_equal. f_equal. pose proof (Z.quot_rem' x y) as H. lia.
+Qed.
+
+Lemma mod_uint_spec : forall x y, 0 <= x -> 0 < y ->
+  mod_do (NUint x) (NUint y) = Ok (NUint (x - y * (x / y))).
+Proof.
+  intros x y Hx Hy. unfold mod_do, umod.
+  destruct (Z.eqb_spec y 0) as [E|_]; [lia|].
+  f_equal. f_equal. rewrite Z.rem_mod_nonneg by lia. pose proof (Z.div_mod x y) as H. lia.
+Qed.
+
+Lemma mod_float_is_error : forall a b f, (a = NFloat f \/ b = NFloat f) -> mod_do a b = Err.
+Proof.
+  intros a b f [H|H]; subst; [reflexivity|destruct a; reflexivity].
+Qed.
+
+Lemma mod_err_iff : forall a b, mod_do a b = Err <->
+  (exists f, a = NFloat f) \/ (exists f, b = NFloat f) \/
+  (match a, b with
+   | NUint _, NInt j | NUint _, NChar j => wrapu64 j = 0
+   | _, NInt j | _, NChar j | _, NUint j => j = 0
+   | _, _ => False end).
+Proof.
+  intros a b; split.
+  - destruct a as [i|u|c|f]; destruct b as [j|v|d|g]; cbn [mod_do]; unfold imod, umod; intro H;
+      try (left; eexists; reflexivity);
+      try (right; left; eexists; reflexivity);
+      right; right;
+      match goal with
+      | H : (if ?c then _ else _) = _ |- _ => destruct c eqn:E; [apply Z.eqb_eq in E; exact E|discriminate]
+      end.
+  - intros [[f ->]|[[f ->]|H]].
+    + reflexivity.
+    + destruct a; reflexivity.
+    + destruct a as [i|u|c|f]; destruct b as [j|v|d|g]; cbn [mod_do]; unfold imod, umod;
+        try contradiction; try reflexivity; rewrite H; reflexivity.
+Qed.
